@@ -57,7 +57,8 @@ def mask_entries(ctx):
                                      shp, ctx=cx, extra={'ckind': 'additive', 'mask': mask, 'img': img}))
                     for fam in fams:
                         E.append(R.Entry('%sCoupling/tails/%s' % (fam, tag), 'coupling',
-                                         (lambda fam=fam, mask=mask, cx=cx, netk=netk: cps[fam](mask, R.net_fn(netk, cx, 4), num_bins=3, tails='linear', tail_bound=2.0)),
+                                         (lambda fam=fam, mask=mask, cx=cx, netk=netk, kx=k: cps[fam](mask, R.net_fn(netk, cx, 4), num_bins=3, tails='linear', tail_bound=2.0,
+                                                                                              **({'apply_unconditional_transform': False} if kx % 2 else {}))),
                                          shp, ctx=cx, spline=dict(fam=fam, tails=True, K=3, B=2.0), extra={'ckind': fam, 'mask': mask, 'img': img}))
     return E
 
